@@ -11,7 +11,7 @@ pub const BUNDLED: &str =
 #[derive(Clone, Debug, PartialEq, Eq, PartialOrd, Ord, Hash)]
 pub struct Meta {
     pub nstate: usize,   // 1..=7
-    pub nstreams: usize, // 2 | 3
+    pub nstreams: usize, // 2 | 3 (4..=6 only for C19/C20 histories: extra plain streams)
     pub mcp_len: usize,  // vector length of MCP, 2..=12
     pub lpf_len: usize,  // odd, 1..=7
     pub win: usize,      // 0 static, 1 +delta, 2 +delta-delta, 3 width-5 windows
@@ -324,7 +324,9 @@ pub fn build(spec: &VoiceSpec, pool: &QuestionPool) -> Vec<u8> {
         data.extend_from_slice(blob);
         pos.push((key, a, data.len() - 1));
     };
-    let names: Vec<&str> = ["MCP", "LF0", "LPF"][..m.nstreams].to_vec();
+    // streams beyond the third are extra plain (non-MSD, no GV) streams: the engine never reads them for
+    // synthesis, but every per-stream setting and weight exists for them
+    let names: Vec<&str> = ["MCP", "LF0", "LPF", "BAP", "AUX", "EXT"][..m.nstreams.min(6)].to_vec();
     let vl = |n: &str| match n {
         "MCP" => m.mcp_len,
         "LF0" => 1,
